@@ -88,6 +88,27 @@ def check_case(case):
         spec = spec_from_forest(case["f"], case["pal"], case["pol"], 0.0 if case["pol"] < 0 else 0.37)
     if case.get("who"):
         spec = with_phases(spec, PH2, {case["who"]: case["pc"]})
+        if case.get("nophase"):  # a configured component in a system WITHOUT system phases: the unnamed phase is not in its configuration
+            spec["phases"] = None
+    if case["fam"] == "huge":   # quantities above the documented defaults (1e6) with only ONE other key supplied
+        from ..sysmodel import KINDS
+        comps = [dict(n="S", k="Source", a=dict(vo=3.0e6, rs=0.0), p=[], g="", r=""),
+                 dict(n="X", k=case["kind"], a=case["args"], p=["S"], g="", r="", lim={"ii": [0.0, 100.0]}),
+                 dict(n="L", k="RLoad", a=dict(rs=1.0e6), p=["X"], g="", r="")]
+        spec = dict(name="huge", comps=comps, phases=None)
+        s0 = build(spec)
+        df0, _ = quiet_call(s0.solve)
+        obs0 = observe(df0)
+        d = resolve(spec)
+        for n in d:
+            exp = expected_tokens(dict(d[n]), quantities(obs0[("", n)], 25.0), d[n].get("lim"), "")
+            got = set(str(obs0[("", n)].get("Warnings", "")).split())
+            if got != exp:
+                res.v(("C09.default-limits", d[n]["k"]), "%s: Warnings %r, expected from the documented defaults %r" % (n, sorted(got), sorted(exp)))
+            if exp:
+                res.stats["flips"] += 1
+        res.nontrivial = 1
+        return res
     phases = list(spec["phases"]) if spec.get("phases") else [""]
     s0 = build(spec)
     try:
@@ -168,6 +189,16 @@ def gen_cases(tier):
                 if c["k"] in PHASE_LIST_KINDS or c["k"] in LOADS:
                     if n <= 1 or tier != "quick" or c is spec["comps"][-1]:
                         yield dict(fam="one", f=f, pal=pal, pol=1, ta=25.0, who=c["n"], pc=pc_options(c, PH2, False)[1], target=c["n"])
+    for kind, args in (("RLoss", dict(rs=0.001)), ("VLoss", dict(vdrop=1.0)), ("LinReg", dict(vo=2.9e6, vdrop=1.0)), ("PSwitch", dict(rs=0.001)),
+                       ("PMux", dict(rs=0.001)), ("Rectifier", dict(vdrop=1.0)), ("Converter", dict(vo=2.0e6, eff=0.9))):
+        yield dict(fam="huge", f=[], pal=pal, pol=1, ta=25.0, kind=kind, args=args)
+    for n in (1, 2):
+        for f in mid.iter_forests(n):
+            spec = spec_from_forest(f, pal, 1, 0.37)
+            for c in spec["comps"][1:]:
+                if c["k"] in PHASE_LIST_KINDS or c["k"] in LOADS:
+                    if n == 1 or c is spec["comps"][-1]:
+                        yield dict(fam="one", f=f, pal=pal, pol=1, ta=25.0, who=c["n"], pc=pc_options(c, PH2, False)[1], target=c["n"], nophase=True)
     for f1 in mid.iter_forests(1):
         for f2 in mid.iter_forests(1):
             if str(f1).count("MX") + str(f2).count("MX") <= 1:
